@@ -674,6 +674,20 @@ func semanticBytes(r *Rng, hint string) ([]byte, bool) {
 		return r.Bytes(2 + 2*r.Intn(4)), true
 	case has("upuack"):
 		return append([]byte{0x01}, r.Bytes(16)...), true
+	case has("protocolconfigurationoptions", "pco"):
+		// configuration protocol octet, then units: 16-bit identifier (mostly one of the
+		// identifiers the library itself declares as 16-bit constants), length, contents
+		b := []byte{0x80}
+		for i := 0; i < 1+r.Intn(4); i++ {
+			id := uint16(r.U64())
+			if len(RegConsts16) > 0 && r.Chance(80) {
+				id = uint16(RegConsts16[r.Intn(len(RegConsts16))])
+			}
+			n := []int{0, 0, 2, 4, 4, 16, 1 + r.Intn(12)}[r.Intn(7)]
+			b = append(b, byte(id>>8), byte(id), byte(n))
+			b = append(b, r.Bytes(n)...)
+		}
+		return b, true
 	case has("tailist", "trackingarea"):
 		b := []byte{byte(r.Intn(3))}
 		b = append(b, plmnBytes(r)...)
